@@ -457,8 +457,7 @@ pub fn run_isolated_file(path: &Path, timeout: Duration) -> Iso {
             if st.success() || st.code() == Some(2) {
                 Iso::HarnessError(format!("child gave no verdict ({})", describe_status(&st)))
             } else {
-                std::thread::sleep(Duration::from_millis(20));
-                let tail = errtail.lock().unwrap().clone();
+                let tail = final_tail(&errtail);
                 let (class, how) = classify_death(&describe_status(&st), &tail);
                 Iso::Abort(class.to_string(), how)
             }
@@ -681,6 +680,19 @@ pub fn classify_death(status_desc: &str, errtail: &str) -> (&'static str, String
     }
 }
 
+/// Wait (briefly) until the stderr reader has seen end-of-file, then return the tail.
+fn final_tail(tail: &Arc<Mutex<String>>) -> String {
+    for _ in 0..200 {
+        let t = tail.lock().unwrap();
+        if t.ends_with('\u{4}') {
+            return t.trim_end_matches('\u{4}').to_string();
+        }
+        drop(t);
+        std::thread::sleep(Duration::from_millis(10));
+    }
+    tail.lock().unwrap().clone()
+}
+
 fn spawn_tail_reader(stderr: std::process::ChildStderr) -> Arc<Mutex<String>> {
     let tail = Arc::new(Mutex::new(String::new()));
     let t2 = tail.clone();
@@ -699,6 +711,8 @@ fn spawn_tail_reader(stderr: std::process::ChildStderr) -> Arc<Mutex<String>> {
                 *t = t[cut2..].to_string();
             }
         }
+        // end-of-file marker for final_tail()
+        t2.lock().unwrap().push('\u{4}');
     });
     tail
 }
@@ -824,8 +838,7 @@ fn manager(prop: String, seed: u64, tier: String, quick: bool, sh: Arc<Shared>) 
             }
             // The worker died or stalled: attribute it to the announced run.
             let status = w.child.wait().ok();
-            std::thread::sleep(Duration::from_millis(20));
-            let tail = w.errtail.lock().unwrap().clone();
+            let tail = final_tail(&w.errtail);
             let (death_class, how) = match (died, &status) {
                 (Some("stalled"), _) => ("stall", "stall".to_string()),
                 (_, Some(st)) => classify_death(&describe_status(st), &tail),
